@@ -183,8 +183,13 @@ def main() -> int:
         if len(b) < 20000:
             for ct in ("application/json", "application/yaml", "text/plain; charset=utf-8", None):
                 add(f"bytes-url:{i}:{ct}", ("bytes-url", i, ct), raw_b64=b64, source="url", url_ctype=ct)
+    # (a') a sample of the byte inputs through a real CLI subprocess (process boundary: exit status, stderr)
+    for i, b in enumerate(byte_inputs()):
+        if i % (6 if quick else 2) == 0 and len(b) < 20000:
+            b64 = base64.b64encode(b).decode()
+            add(f"bytes-proc:{i}", ("bytes-proc", i), raw_b64=b64, suffix=[".json", ".yaml"][i % 2], via="subprocess", fail_on_warning=bool(i % 4 == 0))
     # (b) JSON values as documents
-    for i, v in enumerate([None, True, 0, 1.5, "s", [], [1], {}, {"openapi": None}, {"openapi": "3.0.3", "info": None, "paths": None}, {"openapi": "3.0.3", "info": {"title": "t", "version": "1"}, "paths": []},
+    for i, v in enumerate([True, 0, 1.5, "s", [], [1], {}, {"openapi": None}, {"openapi": "3.0.3", "info": None, "paths": None}, {"openapi": "3.0.3", "info": {"title": "t", "version": "1"}, "paths": []},
                            {"openapi": "3.0.3", "info": {"title": "t", "version": "1"}, "paths": {}, "components": []}, {"openapi": "3.0.3", "info": {"title": "t", "version": "1"}, "paths": {}, "components": {"schemas": []}},
                            {"openapi": "3.0.3", "info": {"title": "", "version": ""}, "paths": {}}, {"openapi": "3.1.0", "info": {"title": " ", "version": "1"}, "paths": {"": {}}}]):
         for fmt in ("json", "yaml"):
@@ -251,6 +256,8 @@ def main() -> int:
     for j, res in zip(jobs, rs):
         mi = meta[j["id"]]
         if res.get("_error"):
+            if res["_error"] == "worker-exception":
+                ev.extra.setdefault("worker_exceptions", []).append({"label": mi["label"], "detail": res.get("detail"), "tb": (res.get("tb") or "")[-400:]})
             if res["_error"] == "died":
                 cls = "other"
                 if "raw_b64" in j:
@@ -277,7 +284,11 @@ def main() -> int:
             x = res["exc"]
             vd.violation(f"crash:{x['type']}@{x['site']}", f"{mi['label']}: {x['type']}: {x['msg'][:160]}", wit)
             continue
-        if j.get("via") == "cli":
+        if j.get("via") == "subprocess":
+            ev.count("real_cli_processes")
+            if res.get("traceback"):
+                vd.violation("traceback_on_stderr", f"{mi['label']}: the CLI process printed a traceback: {res.get('cli_stderr', '')[-300:]}", wit)
+        if j.get("via") in ("cli", "subprocess"):
             ev.count("cli_runs")
             # the CLI prints diagnostics; the deciding relation is checked against the headline it printed
             err = res.get("cli_stderr", "") + res.get("cli_stdout", "")
